@@ -3,15 +3,18 @@ from ..speclib import *
 from .. import effects as E
 from .C03 import locate
 
-TITLE = 'Draw sites on sampler paths have the distribution their role requires, come from the chain generator, and each drawn value feeds exactly one role'
+TITLE = 'Draw sites on sampler paths have the distribution their role requires, advance the chain generator in place, and each drawn value feeds exactly one role; every transition is one of the kernels specified in C01-C05; burn-in rows are the discarded ones'
 EXPLANATION = ('The convergence statement of C06 is statistical and is NOT decided. Decided clause (necessary, far from sufficient): "momenta, slice levels, proposal noise and '
                'acceptance draws have the distributions the algorithms require and are mutually independent" in its structural form — a table of the draw sites on the sampler '
                'paths (MH acceptance, isotropic proposal noise, HMC momenta and uniforms, NUTS momentum / Exp(1) slice / direction / accept / merge uniforms, categorical '
                'variate, initial positions): each site draws the required distribution (type-resolved rand API + distribution value) from the sampler-owned generator, and the '
-               'drawn value reaches exactly one role sink (no value drawn once is used for two decisions).')
-FLOORS = {'obligations': 26}   # counted on the reference tree; fewer instantiated obligations is reported, never passed silently
-TECHNIQUE = 'draw-site table: distribution kind from resolved callees/values, single-use (one role sink) by value-flow containment'
-LEVEL_NOTE = ('Decides only the draw-kind / single-use clause. Convergence of long-run averages, calibration of Monte-Carlo error and correctness of the transition kernels (C01-C05) are outside '
+               'drawn value reaches exactly one role sink (no value drawn once is used for two decisions); each draw consumes the generator IN PLACE (never a copy) and the '
+               'generator state at the end of the transition descends from that draw (C06.advance). Second decided clause (also only necessary): the transition functions are '
+               'the kernels whose normal forms C01-C05 specify (MH ratio with the Hastings correction in the right direction, sequential Gibbs sweep, leapfrog/Hamiltonian, NUTS '
+               'tree + adaptation) and the collection loops discard exactly the warm-up rows (C09 loop obligations) -- the obligations of those specs are re-decided here under C06 keys.')
+FLOORS = {'obligations': 207}   # counted on the reference tree; fewer instantiated obligations is reported, never passed silently
+TECHNIQUE = 'draw-site table: distribution kind from resolved callees/values, single-use (one role sink) by value-flow containment, generator-advance by provenance chain; kernel normal forms shared with C01-C05/C09'
+LEVEL_NOTE = ('Decides only the draw-kind / single-use / generator-advance clause and the kernel-shape clause shared with C01-C05/C09. Convergence of long-run averages and calibration of Monte-Carlo error are outside '
               'this check; trusted: rand/rand_distr contracts (StandardUniform on [0,1), StandardNormal, Exp1), semantic table.')
 
 
@@ -68,6 +71,9 @@ def site(ctx, anchor, slot, ev, s, want_kind, want_dist, wrappers, why, gen='sel
     ctx.check('C06.kind', anchor, slot, kind_ok, expected='%s from %s' % (want_dist, gen), found='%s (%s) from %s' % (s.dist(), s.draw_kind, s.gen_root) if s else 'no such draw', sp=s.sp if s else None, why=why)
     if s is None:
         return
+    adv, whyn = E.advances(ev, s)
+    ctx.check('C06.advance', anchor, slot, adv, expected='the draw advances the generator it reads, in place, and that state survives to the end of the transition', found='advances %s' % s.gen_root if adv else whyn, sp=s.sp,
+              why='successive draws (this transition\'s other draws, and the next transition\'s) must come from fresh generator state; drawing from a copy replays the same variates (momenta identical every step and correlated with the acceptance draws)')
     if s.draw_kind == 'sample_iter':
         # a stream: its elements nth(D, i) are separate draws; the stream itself must not be consumed in any other way
         wrappers = list(wrappers) + T.atoms(T.tup(*all_terms(ev)), lambda x: T.is_app(x, 'nth') and x[2][0] is s.res)
@@ -81,7 +87,23 @@ def one(sites, pred):
     return x[0] if len(x) == 1 else None
 
 
+def kernels(ctx):
+    """second decided clause: every sampler's transition is the kernel whose invariance C01-C05 establish, and burn-in
+    rows are the ones discarded (C09's loop obligations).  Same rules, decided here as well: a transition that is not
+    one of the specified kernels does not (provably) leave the target invariant, so long-run averages need not converge."""
+    from . import C01, C02, C03, C04, C05, C09
+    n = {}
+    for mod, keep in ((C01, lambda o: o.startswith('C01.')), (C02, lambda o: o.startswith('C02.')), (C03, lambda o: o.startswith('C03.')),
+                      (C04, lambda o: o.startswith('C04.')), (C05, lambda o: o.startswith('C05.')),
+                      (C09, lambda o: o.startswith(('C09.run_chain.', 'C09.hmc_run.', 'C09.nuts_run.', 'C09.runner_run.', 'C09.accessor')))):
+        n[mod.__name__.rsplit('.', 1)[-1]] = len(ctx.borrow(mod.run, keep))
+    for k, v in n.items():
+        if v == 0:
+            ctx.unknown('C06.kernel', k, 'borrowed', why='no kernel obligations of %s could be instantiated' % k)
+
+
 def run(ctx):
+    kernels(ctx)
     # ---- MH acceptance
     b = ctx.anchor('MH.step', name='step', trait='core::MarkovChain', self_head='metropolis_hastings::MHMarkovChain')
     if b is not None:
